@@ -348,7 +348,7 @@ class SpyRunner(Runner):
         self.ctl.log('rest', sorted(blocked), sorted(unfinished), expected, self.cancelled)
         if self.ctl.rest_hook is not None:
             self.ctl.rest_hook(self, blocked, unfinished)
-        if blocked:
+        if blocked and not getattr(self, 'hold_gates', False):
             ch = self.ctl.chooser
             k = 1 + ch.choice(len(blocked))
             pool = sorted(blocked)
